@@ -160,7 +160,7 @@ fn spawn_workers(exe: &str, config: &str, sim: &str, seed: u64, total: u64, nwor
             continue;
         }
         match code {
-            Some(0) => match std::fs::read_to_string(&out).ok().and_then(|s| serde_json::from_str::<WorkerResult>(&s).ok()) {
+            Some(0) => match std::fs::read(&out).ok().and_then(|b| serde_json::from_str::<WorkerResult>(&String::from_utf8_lossy(&b)).ok()) {
                 Some(r) => g.results.push(r),
                 None => g.harness_errors.push(format!("worker result {} unreadable", out)),
             },
